@@ -65,11 +65,37 @@ func firstKeyFor(v cty.Value) bool {
 	return found
 }
 
-// renameFirstFor returns v with every first-position key `for` renamed to a
-// key that sorts at the same position but is not the keyword ("fop" sorts
-// before "for" and after everything "for" sorts after, unless such a key is
-// already present, in which case ok=false).
-func renameFirstFor(v cty.Value) (cty.Value, bool) {
+const bom = "\ufeff"
+
+// hasBomKey reports whether v contains (at any depth) a map/object key that
+// starts with U+FEFF and that hclsyntax.ValidIdentifier nevertheless accepts
+// (its scanner strips a leading byte-order mark).
+func hasBomKey(v cty.Value) bool {
+	if v.IsNull() || !v.IsKnown() {
+		return false
+	}
+	ty := v.Type()
+	if !(ty.IsCollectionType() || ty.IsTupleType() || ty.IsObjectType()) {
+		return false
+	}
+	found := false
+	for it := v.ElementIterator(); it.Next(); {
+		k, ev := it.Element()
+		if ty.IsMapType() || ty.IsObjectType() {
+			if ks := k.AsString(); strings.HasPrefix(ks, bom) && hclsyntax.ValidIdentifier(ks) {
+				found = true
+			}
+		}
+		if hasBomKey(ev) {
+			found = true
+		}
+	}
+	return found
+}
+
+// renameBomKeys returns v with the leading U+FEFF of every such key replaced
+// by "b_" (ok=false when that collides with another key).
+func renameBomKeys(v cty.Value) (cty.Value, bool) {
 	if v.IsNull() {
 		return v, true
 	}
@@ -79,7 +105,7 @@ func renameFirstFor(v cty.Value) (cty.Value, bool) {
 		var vs []cty.Value
 		for it := v.ElementIterator(); it.Next(); {
 			_, ev := it.Element()
-			nv, ok := renameFirstFor(ev)
+			nv, ok := renameBomKeys(ev)
 			if !ok {
 				return v, false
 			}
@@ -88,18 +114,16 @@ func renameFirstFor(v cty.Value) (cty.Value, bool) {
 		return cty.TupleVal(vs), true
 	case ty.IsMapType() || ty.IsObjectType():
 		m := map[string]cty.Value{}
-		first := true
 		for it := v.ElementIterator(); it.Next(); {
 			k, ev := it.Element()
 			ks := k.AsString()
-			nv, ok := renameFirstFor(ev)
+			nv, ok := renameBomKeys(ev)
 			if !ok {
 				return v, false
 			}
-			if first && ks == "for" {
-				ks = "fop"
+			if strings.HasPrefix(ks, bom) && hclsyntax.ValidIdentifier(ks) {
+				ks = "b_" + strings.TrimPrefix(ks, bom)
 			}
-			first = false
 			if _, dup := m[ks]; dup {
 				return v, false
 			}
@@ -118,12 +142,12 @@ func valueOracle(v cty.Value) (vd verdict, src []byte) {
 	}()
 	src = hclwrite.TokensForValue(v).Bytes()
 	vd = readBack(src, v)
-	if vd.kind == "value-readback-parse-error" && firstKeyFor(v) {
-		// exact cause: the same value with the leading `for` keys renamed
-		// reads back fine
-		if w, ok := renameFirstFor(v); ok && !firstKeyFor(w) {
+	if vd.kind == "value-readback-parse-error" && hasBomKey(v) {
+		// exact cause: the same value with the byte-order marks of those keys
+		// replaced reads back fine
+		if w, ok := renameBomKeys(v); ok && !hasBomKey(w) {
 			if readBack(hclwrite.TokensForValue(w).Bytes(), w).kind == "" {
-				vd.kind = "object-first-key-for"
+				vd.kind = "key-leading-bom"
 			}
 		}
 	}
@@ -273,17 +297,6 @@ func labelOracle(typeName string, labels []string, viaNewBlock bool) (vds []verd
 	// (1) Labels() of the block just built
 	if !strsEqual(obs.fresh, labels) {
 		kind := "label-readback-differs"
-		exact := len(obs.fresh) == len(labels)
-		if exact {
-			for i := range labels {
-				if obs.fresh[i] != labels[i] && !evenRunBeforeBrace(labels[i]) {
-					exact = false
-				}
-			}
-		}
-		if exact {
-			kind = "label-fresh-escape-misread"
-		}
 		vds = append(vds, verdict{kind, fmt.Sprintf("Block.Labels() of the new block = %q", obs.fresh)})
 	}
 	// (2) hclsyntax parse of File.Bytes()
@@ -309,20 +322,6 @@ func labelOracle(typeName string, labels []string, viaNewBlock bool) (vds []verd
 		obs.relexed = wf.Body().Blocks()[0].Labels()
 		if !strsEqual(obs.relexed, labels) {
 			kind := "label-readback-differs"
-			// exact cause: the labels that survive are, in order, exactly those
-			// that lex to a single QuotedLit; every dropped one contains '$'/'%'
-			var expect []string
-			exact := true
-			for _, l := range labels {
-				if lexesToOneLiteral(l) {
-					expect = append(expect, l)
-				} else if !strings.ContainsAny(l, "$%") {
-					exact = false
-				}
-			}
-			if exact && strsEqual(expect, obs.relexed) {
-				kind = "label-with-template-char-dropped"
-			}
 			vds = append(vds, verdict{kind, fmt.Sprintf("Labels() after hclwrite.ParseConfig(Bytes()) = %q", obs.relexed)})
 		}
 	}
@@ -375,24 +374,23 @@ func fileOracle(fs *fileSpec) (vds []verdict, src []byte) {
 	sf, diags := hclsyntax.ParseConfig(src, "gen.hcl", hcl.InitialPos)
 	if diags.HasErrors() {
 		kind := "value-readback-parse-error"
-		anyFor := false
+		anyBom := false
 		for _, v := range fs.vals {
-			anyFor = anyFor || firstKeyFor(v)
+			anyBom = anyBom || hasBomKey(v)
 		}
 		for _, v := range fs.inner {
-			anyFor = anyFor || firstKeyFor(v)
+			anyBom = anyBom || hasBomKey(v)
 		}
-		if anyFor {
-			// exact cause is established per value by valueOracle; here we only
-			// know the file does not parse
-			kind = "object-first-key-for"
+		if anyBom {
+			// the exact cause is established per value by valueOracle
+			kind = "key-leading-bom"
 			for _, v := range fs.vals {
-				if vd, _ := valueOracle(v); vd.kind != "" && vd.kind != "object-first-key-for" {
+				if vd, _ := valueOracle(v); vd.kind != "" && vd.kind != "key-leading-bom" {
 					kind = "value-readback-parse-error"
 				}
 			}
 			for _, v := range fs.inner {
-				if vd, _ := valueOracle(v); vd.kind != "" && vd.kind != "object-first-key-for" {
+				if vd, _ := valueOracle(v); vd.kind != "" && vd.kind != "key-leading-bom" {
 					kind = "value-readback-parse-error"
 				}
 			}
